@@ -18,8 +18,8 @@ vlib.standard_check({
     "exe": "gv_c14",
     "harness": "c14",
     # harness args after the seed: ncases maxNodes mode
-    "streams": {"quick": [[0, 3, 1], [3000, 10, 0], [1500, 30, 0]],
-                "thorough": [[0, 4, 1], [60000, 10, 0], [20000, 40, 0]]},
+    "streams": {"quick": [[0, 4, 1], [20000, 10, 0], [5000, 40, 0]],
+                "thorough": [[0, 5, 1], [300000, 10, 0], [100000, 40, 0]]},
     "search": [[0, 4, 1], [30000, 12, 0]],
     "signature": signature,
     "eval_key": "ops",
